@@ -31,8 +31,27 @@ def _worker(args):
         from .session import Session
         s = Session(gname, tier, seed, ws, binary, g.get('timeout_s'))
         s.known = set(active)
-        g['fn'](s, **g.get('args', {}))
+        try:
+            g['fn'](s, **g.get('args', {}))
+        except Exception as e:
+            if 'rank mode:' not in str(e):
+                raise
+            # the (changed) code builds or inspects versions, which the order abstraction cannot follow: decide the
+            # same obligations on the concrete order instead (slower; sizes stay as they are)
+            import inspect
+            params = inspect.signature(g['fn']).parameters
+            extra = {}
+            if 'concrete' in params:
+                extra['concrete'] = True
+            elif 'hybrid' in params:
+                extra['hybrid'] = False
+            else:
+                raise
+            s = Session(gname + '+concrete', tier, seed, ws, binary, g.get('timeout_s'))
+            s.known = set(active)
+            g['fn'](s, **dict(g.get('args', {}), **extra))
         out = s.report()
+        out['group'] = gname
         mism = [r for r in out['results'] if r['verdict'] == 'inconclusive' and 'encoder-mismatch' in (r.get('detail') or '') and r.get('mode') == 'rank']
         if mism and g.get('rank_fallback'):
             # a rank-mode model whose fields are unconstrained did not reproduce: re-ask with the ranks tied to the
